@@ -1,5 +1,7 @@
 # C03 -- rearranging views (reshape / transpose / ... ) equal NumPy, at the level of the index functions
 META = dict(level='proof', level_text='wip', level_note='wip', trusted_base=[], assumptions=[], not_covered=[])
+# constant-trip (rank-1) helper loops of hybrid_ndarray<size_t,8,1>
+HYB = {'hybrid_ndarray.*resize': 3, 'detail_init_': 3}
 UNITS = [
     Unit('normalize_axis.bp', 'c03', 'verif_normalize_axis', mode='bp', unwind=10, clause='axis arguments: valid iff -ndim <= axis < ndim, value axis mod ndim'),
     Unit('normalize_axes.bp', 'c03', 'verif_normalize_axes', mode='bp', unwind=10, clause='axis lists: valid iff every entry is; entries normalised'),
@@ -12,10 +14,20 @@ UNITS = [
     Unit('gather_scatter.bp', 'c03', 'verif_gather_scatter', mode='bp', unwind=10, clause='gather undoes scatter for every permutation'),
     Unit('scatter_scatter_inv.bp', 'c03', 'verif_scatter_scatter_inv', mode='bp', unwind=10, clause='transpose by p then by p^-1 restores every element'),
     Unit('shape_transpose_inv.bp', 'c03', 'verif_shape_transpose_inv', mode='bp', unwind=10, clause='transpose by p then by p^-1 restores the shape'),
-    Unit('product.contract.uf', 'c03', 'nmtools::index::product', mode='uf', unwind=10, clause='helper: numel = product of the extents'),
+    Unit('product.contract.uf', 'c03', 'nmtools::index::product[rstatic_vector_ul_8]', mode='uf', unwind=10, clause='helper: numel = product of the extents'),
     Unit('count_negative_reshape.contract.uf', 'c03', 'nmtools::index::count_negative_reshape', mode='uf', unwind=10, clause='helper: (#-1, product of the known extents)'),
     Unit('count_negative_reshape.uf', 'c03', 'verif_count_negative_reshape', mode='uf', unwind=10, clause='reshape: number of -1 entries and product of the others'),
     Unit('shape_reshape.uf', 'c03', 'verif_shape_reshape', mode='uf', unwind=10, clause='reshape incl. one -1: accepted iff NumPy accepts; resulting shape'),
     Unit('shape_reshape.safe.bp', 'c03', 'verif_shape_reshape_safe', mode='bp', unwind=10,
-         replace=['nmtools::index::product', 'nmtools::index::count_negative_reshape'], clause='reshape never crashes (no division by zero), any arguments'),
+         replace=['nmtools::index::product[rstatic_vector_ul_8]', 'nmtools::index::count_negative_reshape'], clause='reshape never crashes (no division by zero), any arguments'),
+    Unit('shape_expand_dims.bp', 'c03', 'verif_shape_expand_dims', mode='bp', unwind=10, clause='expand_dims: a 1 inserted at axis mod (ndim+1)'),
+    Unit('shape_squeeze.bp', 'c03', 'verif_shape_squeeze', mode='bp', unwind=10, unwind_loops=HYB, clause='squeeze: the extents != 1 in order'),
+    Unit('shape_atleast_1d.bp', 'c03', 'verif_shape_atleast_1d', mode='bp', unwind=10, unwind_loops=HYB, clause='atleast_1d shape'),
+    Unit('shape_atleast_2d.bp', 'c03', 'verif_shape_atleast_2d', mode='bp', unwind=10, unwind_loops=HYB, clause='atleast_2d shape'),
+    Unit('shape_atleast_3d.bp', 'c03', 'verif_shape_atleast_3d', mode='bp', unwind=10, unwind_loops=HYB, clause='atleast_nd (nd=3): ones prepended'),
+    Unit('shape_flatten.uf', 'c03', 'verif_shape_flatten', mode='uf', unwind=10, clause='flatten: single extent = element count'),
+    Unit('swapaxes_to_transpose.bp', 'c03', 'verif_swapaxes_to_transpose', mode='bp', unwind=10, clause='swapaxes = transpose with the two axes exchanged'),
+    Unit('moveaxis_to_transpose.bp', 'c03', 'verif_moveaxis_to_transpose', mode='bp', unwind=10,
+         unwind_loops={'moveaxis_to_transpose__rstatic_vector_ul_8_ri_ri': 2, 'argsort__rarr_ul_1': 3, 'normalize_axis__rarr_i_1': 3, 'lambda_moveaxis_to_transpose_2': 3},
+         clause='moveaxis (scalar axes) = transpose with numpy\'s moveaxis permutation'),
 ]
